@@ -253,7 +253,7 @@ def run(run):
                 'Distinct = (conversation, version, k, close mode); '
                 'non-trivial when k is smaller than the conversation length.'
                 % (' and abrupt RST' if thorough else '',
-                   'every offset 0..N x 3 versions' if thorough else
+                   'every offset 0..N x 7 versions' if thorough else
                    'every offset 0..N at one version'))
     run.assumptions = ['a bound of 3 empty reads after end of stream stands '
                        'for "bounded I/O steps" (the monitor\'s failpoint '
@@ -267,7 +267,8 @@ def run(run):
     threading.excepthook = hook
     rng = run.rng('c15')
     rng_bytes = bytes(rng.getrandbits(8) for _ in range(64))
-    versions = [(757, 754), (340, 338), (47, 107)] if thorough else [(757, 754)]
+    versions = [(757, 754), (340, 338), (47, 107), (404, 393), (578, 575),
+                (736, 735), (110, 109)] if thorough else [(757, 754)]
     try:
         n = 0
         for pv, default_pv in versions:
